@@ -267,30 +267,30 @@ EXTRA = {
            "implemented options (reduction='none').",
     "C02": "Also: requires_grad patterns (one operand frozen at a time), call forms as in C01, dtype call histories in fresh "
            "interpreters; low-precision proportionality is skipped only where the float64 twin of the same reference shows the "
-           "reference gradient itself is rounding noise. Integer / bool tensors through scale_fwd; one operand frozen under every named constraint.",
+           "reference gradient itself is rounding noise. Integer / bool tensors through scale_fwd; one operand frozen under every named constraint. Hyperparameter call histories (dropout_p, mult, is_causal, p changed between calls) against the same call made first in a fresh interpreter.",
     "C03": "Also: one operand frozen at a time, padding rows, low-precision-first call histories in fresh interpreters.",
-    "C04": "Also: cross-attention length pairs (output clause) and six factorisations of each normalised width. One-hot probability targets; float16 / bfloat16 softmax at the corners of the range. Causal / non-causal call histories of one shape in a fresh process.",
+    "C04": "Also: cross-attention length pairs (output clause) and six factorisations of each normalised width. One-hot probability targets; float16 / bfloat16 softmax at the corners of the range. Causal / non-causal call histories of one shape in a fresh process. Cross-entropy with ignored (padding) targets, default and caller-chosen ignore_index.",
     "C05": "Also: module level - every module taking a constraint x every forward path (Conv1d padding modes) against its functional form. The rule in float16 / bfloat16; the forward value without autograd (no_grad, inference_mode, inputs without grad) bit-identical to the differentiated one; every unknown name used repeatedly in one fresh process. One constrained operand frozen at a time.",
     "C06": "Also: trainable / constant / detached / no_grad branches, a stream that does not require grad (branch parameter gradients "
            "against the closed form divided by the enclosing branch weights), float32 branches, low-precision call histories. float16 / bfloat16 / float32 streams. tau given as a Python int; evaluation under inference_mode / no_grad before training (fresh process).",
-    "C07": "Also: taus after dtype casts / deep copies of the model, sweeps with temporary rule objects in a fresh process, residual dropout as a stack option. Decoder built with positional arguments in the documented order.",
+    "C07": "Also: taus after dtype casts / deep copies of the model, sweeps with temporary rule objects in a fresh process, residual dropout as a stack option. Decoder built with positional arguments in the documented order. Checkpoint histories: state_dict round trips, pickle, torch.save / load.",
     "C08": "Also: modules after deepcopy, pickle, state-dict rebuild, float()->double(), positional constructor arguments, shape as int; "
-           "torch twin evaluated at the documented temperature. A fresh embedding has a zero padding row; a torch-twin or functional rejection of a configuration the module accepts is a violation. Depth containers built from prototype clones and copied once / twice.",
+           "torch twin evaluated at the documented temperature. A fresh embedding has a zero padding row; a torch-twin or functional rejection of a configuration the module accepts is a violation. Depth containers built from prototype clones and copied once / twice. DepthModuleList built from generators / tuples / iterators.",
     "C09": "Also: an in-place write operation; every earlier object of a history keeps its values and its storage. track_scales in the operation alphabet (16 operations). Batches of short-lived parameters of one shape and varying tags through the optimizers in one fresh process (address reuse).",
-    "C10": "Also: parameters sharing (tag, shape) but not depth inside one call. Generator-valued params inside an explicit group.",
-    "C11": "Also: frozen parameters, tied storage (distinct Parameter objects), zero-element parameters, second calls on the caller's groups. Groups whose parameters all share one scale.",
+    "C10": "Also: parameters sharing (tag, shape) but not depth inside one call. Generator-valued params inside an explicit group. Learning rate passed positionally or left at its default for the three optimizer classes.",
+    "C11": "Also: frozen parameters, tied storage (distinct Parameter objects), zero-element parameters, second calls on the caller's groups. Groups whose parameters all share one scale. Mixed kinds: tensor group lr beside a float global lr and the converse.",
     "C12": "Also: layers inside blocks, containers of prototype clones, copies of copies, the same layer object repeated, parameters "
-           "frozen when the optimizer is built, int / tensor learning rates. Unbatched (C, L) convolution inputs. Optimizers built with the library's default weight decay; dict groups mixing tagged and plain parameters.",
-    "C13": "Also: format objects whose fields are reassigned after use (assign / copy+assign / replace); results never alias inputs, earlier results or buffers.",
+           "frozen when the optimizer is built, int / tensor learning rates. Unbatched (C, L) convolution inputs. Optimizers built with the library's default weight decay; dict groups mixing tagged and plain parameters. Optimizers built from module.parameters() generators, bare and inside a dict group.",
+    "C13": "Also: format objects whose fields are reassigned after use (assign / copy+assign / replace); results never alias inputs, earlier results or buffers. Signed zeros: the sign bit of zero results, idempotence and odd symmetry compared bit-wise.",
     "C14": "Also: six memory layouts for the one-draw-per-element oracle, no_grad / inference_mode / requires-grad inputs, "
-           "srbits / rounding-mode call histories in fresh interpreters, float16 / bfloat16 / float64 inputs. Saturation beyond +-max for every draw under four default dtypes and on format objects used before with other fields; results never alias inputs, earlier results or buffers.",
+           "srbits / rounding-mode call histories in fresh interpreters, float16 / bfloat16 / float64 inputs. Saturation beyond +-max for every draw under four default dtypes and on format objects used before with other fields; results never alias inputs, earlier results or buffers. Tensors holding a single magnitude class (subnormal range only, normal range only, nothing below the smallest subnormal).",
     "C15": "Also: float64 / bfloat16 modules, every float32 exponent through the straight-through primitives, operands passed by keyword, "
            "two-format and nested-transform histories. 12-format sweeps on one model class in a fresh process; frozen / no-grad operands; nested transforms on torch.nn roots. Parameters updated between two calls (.data, no_grad in place, load_state_dict); the straight-through primitives on tensors with other consumers and applied twice.",
-    "C16": "Also: every tensor operand by keyword inside residual branches, DAG towers, an earlier unit_scale(..., replace=) call in a fresh process.",
-    "C17": "Also: a parameter frozen at transform time, intermediates trained in place between nestings, float64 / bfloat16 modules. compile after a deterministic simulation; a raising call followed by normal calls; modules that already hold gradients. Two live chains of one original with different formats used interleaved.",
+    "C16": "Also: every tensor operand by keyword inside residual branches, DAG towers, an earlier unit_scale(..., replace=) call in a fresh process. Trained (non-trivial) LayerNorm affine parameters; parameters / buffers of every layer other than Linear / Embedding bit-identical to the original.",
+    "C17": "Also: a parameter frozen at transform time, intermediates trained in place between nestings, float64 / bfloat16 modules. compile after a deterministic simulation; a raising call followed by normal calls; modules that already hold gradients. Two live chains of one original with different formats used interleaved. A module family with a persistent=False buffer; no storage shared between any parameters or buffers of the chain.",
     "C18": "Also: recompilation to a smaller / larger graph, second-order differentiation, analyse_module(recurse_modules=False) with an "
-           "annotation-completeness oracle, frozen parameters and buffers. Inspection with the copying pruning helpers between two calls. Weights rewritten through .data between two tracked calls.",
-    "C19": "Also: scale ratios inside / outside the tolerance window, chains of non-float nodes, repeated operands. Detached input graphs; repeated calls on one graph object after in-place edits of the result / the input. Different targets sharing one __name__; step-wise drifting scale chains.",
+           "annotation-completeness oracle, frozen parameters and buffers. Inspection with the copying pruning helpers between two calls. Weights rewritten through .data between two tracked calls. Intermediates containing -inf (masking before a softmax; inf / nan statistics compared exactly) and two-element intermediates.",
+    "C19": "Also: scale ratios inside / outside the tolerance window, chains of non-float nodes, repeated operands. Detached input graphs; repeated calls on one graph object after in-place edits of the result / the input. Different targets sharing one __name__; step-wise drifting scale chains. Consumers that take one prunable node positionally and by keyword.",
     "C20": "Also: all pairs of hyperparameter deviations, one operand frozen at a time, plain fx tracing of every function configuration "
            "to 4 ulp and at width 256-4096, regions returning several scaled aliases. add broadcast patterns x constraints; attribute changes and frozen parameters on modules compiled with the library's own transform. An eager rejection of a configuration the PyTorch reference accepts is a violation, not a skip.",
 }
